@@ -42,6 +42,7 @@ static Out run_scalar(const Req &r) {
         ptree p = base_params(r, true, true, true);
         SRef S(At, p);
         { std::ostringstream os; os << S.precond(); o.levels = parse_levels(os.str()); }
+        { std::vector<double> z(r.f.size(), 0.0); S.precond().apply(r.f, z); o.pact = z; }
         o.x = r.x0;
         std::tie(o.iters, o.resid) = S(r.f, o.x);
     } catch (const std::exception &e) { o.threw = true; o.what = e.what(); }
@@ -194,6 +195,22 @@ static void judge_early(const std::string &key, const std::string &subtag, Sys &
     if (!(diff <= bd)) cfail("path.truthful_early." + subtag, key, vf::KS() << "reported=" << o.resid << " true=" << (double)tr << " |diff|=" << (double)diff << " > bound=" << (double)bd << " iters=" << o.iters << " kappa=" << S.sv.kappa << in);
 }
 
+// The hybrid backend builds its hierarchy in scalar arithmetic with exactly the parameters of the scalar reference and only
+// converts every level to b x b blocks: with a smoother that is applied pointwise / as a sparse product (spai0, damped_jacobi,
+// chebyshev, spai1) its preconditioner is the same linear map as the scalar one, up to summation-order rounding.
+static void judge_hybrid_action(const std::string &key, const std::string &subtag, const std::string &pname, Sys &S, const Req &rq, const Out &o, const Out &ref) {
+    if (pname != "hybrid" || rq.form != 0 || !o.ran || o.threw || ref.threw || o.pact.empty() || ref.pact.size() != o.pact.size()) return;
+    if (!(rq.relax == "spai0" || rq.relax == "damped_jacobi" || rq.relax == "chebyshev" || rq.relax == "spai1")) { vf::count("hybrid_action.not_compared_block_smoother"); return; }
+    if (!all_finite(ref.pact) || !all_finite(o.pact)) { vf::count("hybrid_action.nonfinite_not_compared"); return; }
+    if (o.levels != ref.levels) { cfail("hybrid.levels." + subtag, key, vf::KS() << "hybrid hierarchy has " << o.levels << " levels, scalar hierarchy built with the same parameters " << ref.levels << " :: " << rq.coarsening << "+" << rq.relax << " :: " << S.descr); return; }
+    ld worst = 0, scale = 0;
+    for (size_t i = 0; i < o.pact.size(); ++i) { worst = std::max<ld>(worst, fabsl((ld)o.pact[i] - ref.pact[i])); scale = std::max<ld>(scale, fabsl((ld)ref.pact[i])); }
+    ld tol = std::max<ld>(1e-10L, 64.0L * S.A.n * 1.1e-16L * S.sv.kappa) * scale;
+    if (std::getenv("C13_HYBRID_STATS")) fprintf(stderr, "HYBSTAT %s %s %s rel=%Lg tolrel=%Lg levels=%d\n", key.c_str(), rq.coarsening.c_str(), rq.relax.c_str(), scale > 0 ? worst / scale : worst, scale > 0 ? tol / scale : tol, o.levels);
+    if (worst > tol) cfail("hybrid.preconditioner_action." + subtag, key, vf::KS() << "max |B_hybrid f - B_scalar f| = " << (double)worst << " (scale " << (double)scale << ", allowed " << (double)tol << "), levels " << o.levels << " :: " << rq.coarsening << "+" << rq.relax << " :: " << S.descr << " A=" << sg::show(S.A));
+    else vf::count(o.levels >= 2 ? "hybrid_action.compared_multilevel" : "hybrid_action.compared_single_level");
+}
+
 int main(int argc, char **argv) {
     vf::init(argc, argv, "C13");
     const bool T = vf::thorough();
@@ -236,6 +253,7 @@ int main(int argc, char **argv) {
                         if (o.ran && !o.threw && (o.levels >= 2 || o.iters >= 2)) any2 = true;
                         const std::string subtag = p.btype + std::to_string(b) + "." + p.name + (form ? ".A" : "");
                         judge(key, subtag, S, rq, o, ref, refconv);
+                        judge_hybrid_action(key, subtag, p.name, S, rq, o, ref);
                         if (o.ran && !o.threw && o.iters > 2) { rq.maxiter = 2; Out oe = p.run(rq); judge_early(key, subtag, S, rq, oe); rq.maxiter = 100; }
                         else if (o.ran && !o.threw) { judge_early(key, subtag, S, rq, o); }      // the full run stopped within 2 iterations: it is its own early probe
                     }
